@@ -1045,6 +1045,16 @@ class Interp:
                 new = ("appended", cur, args[1])
                 self.env[f.value.id] = new
                 self.emit("assign", n, name=f.value.id, value=new)
+        elif isinstance(f, ast.Attribute) and isinstance(f.value, ast.Name) and f.attr == "extend" and len(args) == 2:
+            # list.extend(<literal list / tuple>) in straight-line code splices the items; anything else makes the list unknown
+            cur = self.env.get(f.value.id)
+            if cur is not None and cur[0] == "list":
+                if args[1][0] in ("list", "tuple") and not self._loopstack and not self._guards:
+                    self.env[f.value.id] = ("list", cur[1] + tuple(args[1][1]))
+                else:
+                    new = ("call", "list.extended", (cur, args[1]), ())
+                    self.env[f.value.id] = new
+                    self.emit("assign", n, name=f.value.id, value=new)
         return term
 
     def _inline_call(self, fi: FunctionInfo, args, kwargs, node) -> Optional[Term]:
